@@ -72,6 +72,13 @@ Proof.
   destruct (f a); cbn [map]; rewrite IH; reflexivity.
 Qed.
 
+Lemma take_while_er (f : attr -> bool) l : (forall a, f (er a) = f a) ->
+  take_while f (map er l) = map er (take_while f l).
+Proof.
+  intros Hf. induction l as [|a r IH]; cbn [map take_while]; [reflexivity|]. rewrite Hf.
+  destruct (f a); cbn [map]; [rewrite IH|]; reflexivity.
+Qed.
+
 Lemma in_range_er s e a : in_range s e (er a) = in_range s e a.
 Proof. unfold in_range. rewrite er_handle. reflexivity. Qed.
 
@@ -172,7 +179,7 @@ Proof.
   rewrite view_db, by_range_er. destruct (by_range s e (st_db st)) as [|a0 r]; [reflexivity|].
   cbn [map]. cbv zeta. rewrite er_type.
   change (er a0 :: map er r) with (map er (a0 :: r)).
-  rewrite firstn_map, filter_er by (intros; rewrite er_type; reflexivity).
+  rewrite firstn_map, take_while_er by (intros; rewrite er_type; reflexivity).
   rewrite map_er_ext by (intros; rewrite er_handle, er_type; reflexivity).
   reflexivity.
 Qed.
@@ -249,7 +256,8 @@ Proof.
   change (er a0 :: map er r) with (map er (a0 :: r)).
   change (mtu_of (view st)) with (mtu_of st).
   rewrite !firstn_map.
-  rewrite !filter_er by (intros; rewrite er_uuid, er_kind; reflexivity).
+  rewrite take_while_er by (intros; rewrite er_uuid; reflexivity).
+  rewrite !filter_er by (intros; rewrite ?er_uuid, ?er_kind; reflexivity).
   assert (Hmap : forall p, (forall a, p a = true -> a_kind a = KDecl \/ a_kind a = KInclude) ->
             forall l, map (fun a => (a_handle a, payload a)) (map er (filter p l))
                       = map (fun a => (a_handle a, payload a)) (filter p l)).
@@ -258,7 +266,7 @@ Proof.
   destruct (bytes_eqb ty (uuid16 10243)).
   - rewrite Hmap.
     + match goal with |- context [match ?l with [] => _ | _ :: _ => _ end] => destruct l end; reflexivity.
-    + intros a Ha. apply andb_true_iff in Ha as [_ Ha]. left. destruct (a_kind a); try discriminate. reflexivity.
+    + intros a Ha. left. destruct (a_kind a); try discriminate. reflexivity.
   - destruct (bytes_eqb ty (uuid16 10242)); [|reflexivity].
     rewrite Hmap.
     + match goal with |- context [match ?l with [] => _ | _ :: _ => _ end] => destruct l end; reflexivity.
@@ -1855,9 +1863,8 @@ Lemma orig_execute_unchecked :
   let st1 := fst (server_step_v V_orig demo_state (PrepareWrite 6 0 [9]) no_hooks) in
   let st2 := fst (server_step_v V_orig st1 (ExecuteWrite 1) no_hooks) in
   is_value_handle st1 6 = true /\ value_may_write st1 6 = false
-  /\ value_at st1 6 = Some [100] /\ value_at st2 6 = Some [9]
-  /\ i_queues (st_cur st2) <> [].
-Proof. vm_compute. repeat split; try reflexivity. discriminate. Qed.
+  /\ value_at st1 6 = Some [100] /\ value_at st2 6 = Some [9].
+Proof. vm_compute. repeat split; reflexivity. Qed.
 
 (** original code: subscription by Write Request, disconnection, then the application changes the
     value: a notification is still emitted *)
